@@ -22,14 +22,14 @@ from vf.props.common import harness_error, inconclusive, proved, violation
 ID = "C07"
 LEVEL = "model_checking"
 ITEM_BUDGET_S = {"quick": 600, "thorough": 1800}
-QT = {"quick": 15000, "thorough": 60000}
+QT = {"quick": 15000, "thorough": 30000}
 _TIER = "quick"
 
 META = dict(
     rule="one case = (model, method, path with values) for the objective identity; (handle recipe) for the Solution.__getitem__ identities",
     bounds={
         "quick": "26 models x 10 methods (as C06), all data symbolic; 24 handle recipes over vectors n<=4 and matrices <=3x3 (slices with steps and negative indices, rows/cols/diag/T, symmetric)",
-        "thorough": "adds the n=3 models and path budget 20000",
+        "thorough": "adds the n=3 models and path budget 10000",
     },
     outside=["rounding (S7)", "solver replies that violate S4/S5 (fun not equal to the passed callable at x)"],
     assumptions=["S4: result.fun == fun(result.x) for the callable passed", "S5: result.fun == c.x for the cost vector passed", "S1", "S2", "S7"],
@@ -63,7 +63,7 @@ def items(tier, seed):
         for meth in LM.METHODS + LM.EXTRA_METHODS:
             its.append(("mm", (m, meth)))
     # the solve under test as the SECOND solve of a problem object edited in between
-    hmeths = ["auto", "SLSQP"] if tier == "quick" else LM.METHODS + LM.EXTRA_METHODS
+    hmeths = ["auto"] if tier == "quick" else ["auto", "SLSQP", "trust-constr", "L-BFGS-B", "BFGS"]
     for im, m in enumerate(LM.solve_models(tier)):
         if tier == "quick" and im % 3 != 1:
             continue
@@ -84,7 +84,7 @@ def check_mm(model, method, planted=False, hist=None):
     allv = names["vars"] + names["syms"] + names["params"]
     val = K.sym_val(allv)
     tag = f"{model['tag']}/{method}" + (f"/after {hist}" if hist else "")
-    budget = 2500 if _TIER == "quick" else 20000
+    budget = 1200 if _TIER == "quick" else 10000
     observe = (lambda: SV.solve_observe(model, val, method)) if hist is None else (lambda: SV.solve_observe_hist(model, val, method, hist))
     allmodel = allv + [f"m{k}_x{i}" for k in (1, 2, 3) for i in range(12)] + [f"lp{k}_x{i}" for k in (1, 2) for i in range(12)]
     seen = set()
@@ -93,6 +93,9 @@ def check_mm(model, method, planted=False, hist=None):
         if o.exc is not None:
             if isinstance(o.exc, SymbolicConcretisation):
                 res.append(harness_error(f"concretisation in solve: {o.exc}", item=tag))
+            elif type(o.exc).__name__ in ("TypeError", "AttributeError", "NameError", "KeyError", "IndexError", "UnboundLocalError", "AssertionError"):
+                # not one of the library's own errors: most likely the harness (never skipped silently)
+                res.append(harness_error(f"solve raises {type(o.exc).__name__}: {o.exc}", item=tag))
             continue
         sol = o.solution
         if not sol.values or sol.objective_value is None:
